@@ -228,6 +228,8 @@ def slices_to_raw_chunks(slice_filename_lists, dest_url, input_orientation,
         # free up memory before reading next block (prevent doubled memory
         # usage)
         del block
+    # Flush buffered writes now (sharded accessor), so that errors are reported
+    accessor.close()
 
 
 def convert_slices_in_directory(slice_dirs, dest_url, input_orientation="RAS",
